@@ -117,6 +117,11 @@ void ns_stream_raw_close(ns_stream_t *s, int side);
 int ns_stream_pump(void); /* deliver everything pending between libcoap stream sides until quiet; returns #rounds */
 extern int ns_stream_auto; /* 1 (default): bytes written are immediately readable by the other side */
 
+/* ---- epoll builds (COAP_EPOLL_SUPPORT): epoll_create1/epoll_ctl/epoll_wait/timerfd_* are served by netsim ---- */
+struct epoll_event;
+int ns_epoll_fill(struct epoll_event *ev, int max); /* non-blocking: EPOLLIN for the destination of the oldest datagram */
+extern int (*ns_epoll_wait_hook)(int epfd, struct epoll_event *ev, int max, int timeout);
+
 /* ---- misc ---- */
 void ns_log_quiet(void); /* installs a log handler that formats (walks PDUs) but discards */
 extern int ns_log_to_trace; /* 1: forward libcoap log lines to vx_trace (replay mode) */
